@@ -11,6 +11,7 @@ import (
 	"annverif/cfgx"
 	"annverif/core"
 	"annverif/equiv"
+	"annverif/locks"
 )
 
 // Ctx is what a rule set gets: the program, helpers, and the report to fill.
@@ -21,6 +22,7 @@ type Ctx struct {
 	Tier string
 	fns  map[*ssa.Function]*cfgx.Fn
 	eq   *equiv.Checker
+	lk   *locks.Analysis
 }
 
 func NewCtx(p *core.Prog, r *core.Report, tier string) *Ctx {
